@@ -439,13 +439,13 @@ Proof.
   - destruct a; [reflexivity|cbn in L; lia].
   - destruct a as [|b0 r]; [reflexivity|]. cbn [length] in L. cbn [utf8_valid app] in *.
     destruct (b0 <? 128). { apply IH; [lia|auto]. }
-    destruct (inr 194 223 b0).
+    destruct (in_rng 194 223 b0).
     { destruct r as [|b1 r1]; [discriminate|]. cbn [app]. apply andb_prop in H as [H1 H2]. rewrite H1. cbn [andb].
       apply IH; [cbn [length] in L; lia|auto]. }
-    destruct (inr 224 239 b0).
+    destruct (in_rng 224 239 b0).
     { destruct r as [|b1 [|b2 r2]]; try discriminate. cbn [app].
       apply andb_prop in H as [H12 H3]. rewrite H12. cbn [andb]. apply IH; [cbn [length] in L; lia|auto]. }
-    destruct (inr 240 244 b0); [|discriminate].
+    destruct (in_rng 240 244 b0); [|discriminate].
     destruct r as [|b1 [|b2 [|b3 r3]]]; try discriminate. cbn [app].
     apply andb_prop in H as [H123 H4]. rewrite H123. cbn [andb]. apply IH; [cbn [length] in L; lia|auto].
 Qed.
@@ -599,17 +599,17 @@ Proof.
   - destruct p; [reflexivity|cbn in L; lia].
   - destruct p as [|b0 r]; [reflexivity|]. cbn [length] in L. cbn [app utf8_valid] in *.
     destruct (b0 <? 128). { apply (IH r z); [lia|auto]. }
-    destruct (inr 194 223 b0).
+    destruct (in_rng 194 223 b0).
     { destruct r as [|b1 r1]; cbn [app] in *.
       - rewrite cont_10 in H. discriminate.
       - apply andb_prop in H as [H1 H2]. rewrite H1. cbn [andb]. apply (IH r1 z); [cbn [length] in L; lia|auto]. }
-    destruct (inr 224 239 b0).
+    destruct (in_rng 224 239 b0).
     { destruct r as [|b1 [|b2 r2]]; cbn [app] in *.
       - destruct z as [|z0 z']; [discriminate|]. apply andb_prop in H as [H12 _]. apply andb_prop in H12 as [Ha _].
         exfalso. destruct (b0 =? 224); [discriminate|]. destruct (b0 =? 237); discriminate.
       - apply andb_prop in H as [H12 _]. apply andb_prop in H12 as [_ Hc]. rewrite cont_10 in Hc. discriminate.
       - apply andb_prop in H as [H12 H3]. rewrite H12. cbn [andb]. apply (IH r2 z); [cbn [length] in L; lia|auto]. }
-    destruct (inr 240 244 b0); [|discriminate].
+    destruct (in_rng 240 244 b0); [|discriminate].
     destruct r as [|b1 [|b2 [|b3 r3]]]; cbn [app] in *.
     + destruct z as [|z0 [|z1 z']]; try discriminate. apply andb_prop in H as [H123 _].
       apply andb_prop in H123 as [H12 _]. apply andb_prop in H12 as [Ha _].
